@@ -121,6 +121,9 @@ def check(prog: Program, rep):
                 rep.violation("C20.R1", key, "bare raise outside `except ValueError`", f.loc(r))
             else:
                 rep.ok("C20.R1", key, "ValueError", f.loc(r), nontrivial=False)
+    rep.rule("C20.R3", "the stored width is computed with the demands the width definition states (shared with C09.R7)", floor=4)
+    from rules.c09 import width_demands
+    width_demands(prog, rep, "C20.R3")
     rep.rule("C20.R2", "n, m, w are computed from the graph after the last add_edge", floor=3)
     last_add = max([c.lineno for c in calls_in(f.node) if isinstance(c.func, ast.Attribute) and c.func.attr == "add_edge"] or [0])
     want = {"n": r"^G\.number_of_nodes\(\)$", "m": r"^G\.number_of_edges\(\)$", "w": r"stDiGraph\(G\)\.get_width\(\)$"}
